@@ -186,13 +186,20 @@ func (p *Prompt) LastUsed() int {
 
 // SecondaryPrint prints the last cursor in secondary prompt mode,
 // which is always activated when the current input line is a multiline one.
-func (p *Prompt) SecondaryPrint() {
+// The prompt is printed in the columns left of the input line (the width of the
+// primary prompt): when it does not fit in there, it is not printed at all, since
+// it would otherwise overwrite the beginning of the line.
+func (p *Prompt) SecondaryPrint(columns int) {
+	secondary := secondaryPromptDefault
 	if p.secondaryF != nil {
-		fmt.Print(p.secondaryF())
+		secondary = p.secondaryF()
+	}
+
+	if strutil.RealLength(secondary) > columns {
 		return
 	}
 
-	fmt.Print(secondaryPromptDefault)
+	fmt.Print(secondary)
 }
 
 // MultilineColumnPrint prints the multiline editor column status indicator.
